@@ -28,6 +28,8 @@ pub enum Medium {
     Json,
     Tagged,
     Bincode,
+    /// Python's pickle on the extension classes in the embedded interpreter
+    Pickle,
 }
 
 impl Medium {
@@ -36,6 +38,7 @@ impl Medium {
             Medium::Json => "json",
             Medium::Tagged => "tagged-json",
             Medium::Bincode => "bincode",
+            Medium::Pickle => "pickle",
         }
     }
 }
@@ -110,7 +113,12 @@ pub struct Plan {
 // ------------------------------------------------------------------ generation
 
 fn gen_medium(rng: &mut Rng) -> Medium {
-    *rng.pick(&[Medium::Json, Medium::Tagged, Medium::Bincode])
+    *rng.pick(&[
+        Medium::Json,
+        Medium::Tagged,
+        Medium::Bincode,
+        Medium::Pickle,
+    ])
 }
 
 fn insert_restarts(rng: &mut Rng, ops: &mut Vec<Op>, partner: bool) {
@@ -688,6 +696,29 @@ fn ser_err<E: std::fmt::Display>(e: E) -> String {
 
 /// Save one part of an object to its durable bytes.
 pub fn save(o: &Obj, m: Medium, which: u8) -> Result<Vec<u8>, String> {
+    if m == Medium::Pickle {
+        return pyo3::Python::with_gil(|py| -> Result<Vec<u8>, String> {
+            use pyo3::Py;
+            let e = |x: pyo3::PyErr| x.to_string();
+            let obj: pyo3::PyObject = match o {
+                Obj::Number { x, y } => match if which == 1 { y } else { x } {
+                    Number::Dual(d) => Py::new(py, d.clone()).map_err(e)?.into_any(),
+                    Number::Dual2(d) => Py::new(py, d.clone()).map_err(e)?.into_any(),
+                    Number::F64(_) => return Err("f64 has no durable form of its own".into()),
+                },
+                Obj::Cal(c) => Py::new(py, c.clone()).map_err(e)?.into_any(),
+                Obj::Union(c) => Py::new(py, c.clone()).map_err(e)?.into_any(),
+                Obj::Named(c) => Py::new(py, c.clone()).map_err(e)?.into_any(),
+                Obj::Fx(f) => Py::new(py, f.clone()).map_err(e)?.into_any(),
+                Obj::Curve(c12::Sut::Py(c)) => c.clone().into_py_object(py).map_err(e)?,
+                Obj::Curve(_) => return Err("CurveDF is not a Python class".into()),
+                Obj::Spline(Spl::F(p)) => Py::new(py, p.clone()).map_err(e)?.into_any(),
+                Obj::Spline(Spl::D(p)) => Py::new(py, p.clone()).map_err(e)?.into_any(),
+                Obj::Spline(Spl::D2(p)) => Py::new(py, p.clone()).map_err(e)?.into_any(),
+            };
+            crate::pyx::dumps(py, obj)
+        });
+    }
     macro_rules! three {
         ($v:expr, $tag:ident) => {
             match m {
@@ -696,6 +727,7 @@ pub fn save(o: &Obj, m: Medium, which: u8) -> Result<Vec<u8>, String> {
                     hooks::to_tagged_json(VerifObj::$tag($v.clone())).map(|s| s.into_bytes())
                 }
                 Medium::Bincode => bincode::serialize($v).map_err(ser_err),
+                Medium::Pickle => unreachable!(),
             }
         };
     }
@@ -709,6 +741,7 @@ pub fn save(o: &Obj, m: Medium, which: u8) -> Result<Vec<u8>, String> {
                     hooks::to_tagged_json(VerifObj::$tag($v.clone())).map(|s| s.into_bytes())
                 }
                 Medium::Bincode => bincode::serialize($v).map_err(ser_err),
+                Medium::Pickle => unreachable!(),
             }
         };
     }
@@ -729,6 +762,7 @@ pub fn save(o: &Obj, m: Medium, which: u8) -> Result<Vec<u8>, String> {
             Medium::Json => c.to_json().map(|s| s.into_bytes()),
             Medium::Tagged => c.to_json_tagged().map(|s| s.into_bytes()),
             Medium::Bincode => c.to_bincode(),
+            Medium::Pickle => unreachable!(),
         },
         Obj::Spline(s) => match s {
             Spl::F(p) => three_plain!(p, PPSplineF64),
@@ -741,6 +775,47 @@ pub fn save(o: &Obj, m: Medium, which: u8) -> Result<Vec<u8>, String> {
 /// Load bytes as the same type as (part `which` of) `proto`, returning the object with that
 /// part replaced.
 pub fn load(proto: &Obj, bytes: &[u8], m: Medium, which: u8) -> Result<Obj, String> {
+    if m == Medium::Pickle {
+        return pyo3::Python::with_gil(|py| -> Result<Obj, String> {
+            use pyo3::prelude::*;
+            let any = crate::pyx::loads(py, bytes)?;
+            let e = |x: pyo3::PyErr| x.to_string();
+            Ok(match proto {
+                Obj::Number { x, y } => {
+                    let n = if which == 1 { y } else { x };
+                    let loaded = match n {
+                        Number::Dual(_) => Number::Dual(any.extract::<Dual>().map_err(e)?),
+                        Number::Dual2(_) => Number::Dual2(any.extract::<Dual2>().map_err(e)?),
+                        Number::F64(_) => return Err("f64 has no durable form".into()),
+                    };
+                    if which == 1 {
+                        Obj::Number {
+                            x: x.clone(),
+                            y: loaded,
+                        }
+                    } else {
+                        Obj::Number {
+                            x: loaded,
+                            y: y.clone(),
+                        }
+                    }
+                }
+                Obj::Cal(_) => Obj::Cal(any.extract::<Cal>().map_err(e)?),
+                Obj::Union(_) => Obj::Union(any.extract::<UnionCal>().map_err(e)?),
+                Obj::Named(_) => Obj::Named(any.extract::<NamedCal>().map_err(e)?),
+                Obj::Fx(_) => Obj::Fx(any.extract::<FXRates>().map_err(e)?),
+                Obj::Curve(c12::Sut::Py(_)) => Obj::Curve(c12::Sut::Py(
+                    hooks::VerifCurve::from_py_object(&any).map_err(e)?,
+                )),
+                Obj::Curve(_) => return Err("CurveDF is not a Python class".into()),
+                Obj::Spline(Spl::F(_)) => Obj::Spline(Spl::F(any.extract::<PPSplineF64>().map_err(e)?)),
+                Obj::Spline(Spl::D(_)) => Obj::Spline(Spl::D(any.extract::<PPSplineDual>().map_err(e)?)),
+                Obj::Spline(Spl::D2(_)) => {
+                    Obj::Spline(Spl::D2(any.extract::<PPSplineDual2>().map_err(e)?))
+                }
+            })
+        });
+    }
     let text = || std::str::from_utf8(bytes).map_err(|e| e.to_string());
     macro_rules! three {
         ($T:ty, $tag:ident, $direct:expr) => {
@@ -751,6 +826,7 @@ pub fn load(proto: &Obj, bytes: &[u8], m: Medium, which: u8) -> Result<Obj, Stri
                     _ => Err("tagged JSON came back as another type".to_string()),
                 },
                 Medium::Bincode => bincode::deserialize::<$T>(bytes).map_err(ser_err),
+                Medium::Pickle => unreachable!(),
             }
         };
     }
@@ -792,6 +868,7 @@ pub fn load(proto: &Obj, bytes: &[u8], m: Medium, which: u8) -> Result<Obj, Stri
             Medium::Json => c.load_json(text()?, false)?,
             Medium::Tagged => c.load_json(text()?, true)?,
             Medium::Bincode => c.load_bincode(bytes)?,
+            Medium::Pickle => unreachable!(),
         }),
         Obj::Spline(s) => Obj::Spline(match s {
             Spl::F(_) => Spl::F(three!(PPSplineF64, PPSplineF64, |t: &str| {
@@ -1097,6 +1174,43 @@ pub fn canonical_text(bytes: &[u8]) -> Vec<u8> {
     out.into_bytes()
 }
 
+/// Can every datetime of the object be handed to Python (years 1..9999)?
+fn python_representable(spec: &ObjSpec) -> bool {
+    const LO: i64 = -719_162 * 86_400; // 0001-01-01
+    const HI: i64 = 2_932_896 * 86_400 + 86_399; // 9999-12-31
+    let cal_ok = |c: &CalSpec| c.holidays.iter().all(|(s, _)| *s >= LO && *s <= HI);
+    let union_ok = |u: &UnionSpec| {
+        u.members.iter().all(cal_ok) && u.settle.iter().flatten().all(cal_ok)
+    };
+    match spec {
+        ObjSpec::Cal(c) => cal_ok(c),
+        ObjSpec::Union(u) => union_ok(u),
+        ObjSpec::Curve { setup, cal, .. } => {
+            setup.nodes.iter().all(|n| n.ts >= LO && n.ts <= HI)
+                && match cal {
+                    CalChoice::Cal(c) => cal_ok(c),
+                    CalChoice::Union(u) => union_ok(u),
+                    CalChoice::Named(_) => true,
+                }
+        }
+        ObjSpec::Fx(setup) => setup
+            .quotes
+            .iter()
+            .all(|q| q.settle.map(|d| (-719_162..=2_932_896).contains(&d)).unwrap_or(true)),
+        _ => true,
+    }
+}
+
+/// ... and of the operations that follow (FX updates carry settlement dates too)?
+fn python_representable_ops(ops: &[Op]) -> bool {
+    ops.iter().all(|o| match o {
+        Op::Update(items) => items
+            .iter()
+            .all(|q| q.settle.map(|d| (-719_162..=2_932_896).contains(&d)).unwrap_or(true)),
+        _ => true,
+    })
+}
+
 fn contains_hash_ordered_bytes(o: &Obj) -> bool {
     // bincode of a Cal writes week_mask in per-process hash order; JSON is canonicalised.
     matches!(o, Obj::Cal(_) | Obj::Union(_) | Obj::Curve(c12::Sut::Py(_)))
@@ -1275,6 +1389,19 @@ pub fn execute(plan: &Plan, obs: &mut Obs) -> Result<(), Fail> {
         match op {
             Op::Restart { medium, which } => {
                 let which = if matches!(a, Obj::Number { .. }) { *which } else { 0 };
+                // Python's pickle applies to the extension classes only, and Python's datetime
+                // spans years 1..9999: otherwise the binary state is exercised directly
+                let medium = &if *medium == Medium::Pickle
+                    && (matches!(&b, Obj::Curve(c) if !matches!(c, c12::Sut::Py(_)))
+                        || !python_representable(&plan.obj)
+                        || !python_representable_ops(&plan.ops))
+                {
+                    obs.count("restart.pickle_downgraded_to_bincode");
+                    Medium::Bincode
+                } else {
+                    *medium
+                };
+                let binary = *medium == Medium::Bincode || *medium == Medium::Pickle;
                 let mname = medium.name();
                 let bytes1 = match call(P, "save", || save(&b, *medium, which))
                     .map_err(|mut e| {
@@ -1376,9 +1503,12 @@ pub fn execute(plan: &Plan, obs: &mut Obs) -> Result<(), Fail> {
                     Ok(x) => x,
                     Err(e) => return Err(v(kind, mname, "save-failed", format!("re-saving failed: {}", e))),
                 };
-                let comparable = *medium != Medium::Bincode || !contains_hash_ordered_bytes(&b);
+                // pickle bytes also embed the constructor arguments (`__getnewargs__`), which
+                // may legitimately differ in memory-order details: only the object is compared
+                let comparable = *medium != Medium::Pickle
+                    && (!binary || !contains_hash_ordered_bytes(&b));
                 if comparable {
-                    let (c1, c2) = if *medium == Medium::Bincode {
+                    let (c1, c2) = if binary {
                         (bytes1.clone(), bytes2.clone())
                     } else {
                         (canonical_text(&bytes1), canonical_text(&bytes2))
@@ -1398,9 +1528,9 @@ pub fn execute(plan: &Plan, obs: &mut Obs) -> Result<(), Fail> {
                 }
                 let mut h = Fnv::new();
                 h.u64(d);
-                h.bytes(&if *medium == Medium::Bincode && !comparable {
+                h.bytes(&if binary && !comparable {
                     vec![]
-                } else if *medium == Medium::Bincode {
+                } else if binary {
                     bytes1.clone()
                 } else {
                     canonical_text(&bytes1)
@@ -1915,7 +2045,7 @@ impl Scenario for C16 {
         .into()
     }
     fn rule() -> String {
-        "one evaluation = one seeded object life (Dual/Dual2 with a storage-sharing partner; Cal; UnionCal; NamedCal; CurveDF x 5 rules and the Python-facing Curve with Cal/UnionCal/NamedCal calendars; FXRates with the C10 history alphabet; PPSpline f64/Dual/Dual2 unsolved, solved, re-solved, with refused solves) run on twin objects, with 1-6 crash-and-restart events (save -> drop every handle -> load; media JSON, tagged JSON, bincode) injected at seeded points including immediately after construction, after a refused operation, and back-to-back. After each restart: load succeeds, B == A, the type's whole query suite is bit-identical, re-saved bytes equal the loaded bytes; afterwards both twins receive the rest of the life and are compared after every step. Contents are drawn from a mixture dominated by uniformly random finite bit patterns. Distinct = distinct plan digest; non-trivial = the life contains at least one restart.".into()
+        "one evaluation = one seeded object life (Dual/Dual2 with a storage-sharing partner; Cal; UnionCal; NamedCal; CurveDF x 5 rules and the Python-facing Curve with Cal/UnionCal/NamedCal calendars; FXRates with the C10 history alphabet; PPSpline f64/Dual/Dual2 unsolved, solved, re-solved, with refused solves) run on twin objects, with 1-6 crash-and-restart events (save -> drop every handle -> load; media JSON, tagged JSON, bincode, and Python's pickle on the extension classes in an embedded interpreter) injected at seeded points including immediately after construction, after a refused operation, and back-to-back. After each restart: load succeeds, B == A, the type's whole query suite is bit-identical, re-saved bytes equal the loaded bytes; afterwards both twins receive the rest of the life and are compared after every step. Contents are drawn from a mixture dominated by uniformly random finite bit patterns. Distinct = distinct plan digest; non-trivial = the life contains at least one restart.".into()
     }
     fn assumptions() -> Vec<String> {
         vec![
@@ -1932,7 +2062,8 @@ impl Scenario for C16 {
     fn components() -> serde_json::Value {
         serde_json::json!({
             "real": ["serde_json / bincode (de)serialisation of every rateslib type", "JSON trait, tagged DeserializedObj container (via verif-hooks)", "rebuild-on-load data models (NamedCal, FXRates)", "PartialEq of every type", "every query used by the suites (calendar arithmetic, curve look-ups, FX rates, spline evaluation, gradient read-back)"],
-            "stub": ["the storage medium is an in-memory byte vector (no file system)", "Python pickling wrappers (__getstate__/__setstate__) are represented by the bincode calls they make"],
+            "real_python": ["pickle.dumps / pickle.loads in an embedded interpreter drive the real __getnewargs__, __getstate__, #[new] constructors and __setstate__ of Dual, Dual2, Cal, UnionCal, NamedCal, FXRates, Curve, PPSplineF64/Dual/Dual2"],
+            "stub": ["the storage medium is an in-memory byte vector (no file system)", "all other Python methods are not executed"],
             "model": ["twin object that never restarts"]
         })
     }
